@@ -290,6 +290,9 @@ func (m *MonC03) check(where string, idx int, s *Snap) {
 		if !v.HasInfo {
 			continue
 		}
+		if !v.Exists && len(v.Info.TotalDelegatorShares) > 0 {
+			rep.Class("C03.validator-removed-with-delegations") // x/staking removed it; its delegations live on
+		}
 		seen := map[string]bool{}
 		for _, c := range v.Info.TotalDelegatorShares {
 			if c.Amount.IsNegative() {
